@@ -170,13 +170,8 @@ def typed_languages(tree, k):
 def run(ctx):
     quick = ctx.tier == "quick"
     ctx.build_go()
-    ctx.extract(["lexer", "tables", "specmaps"])
-    try:
-        ctx.prove("Emerge.Props.C11")
-        if not quick:
-            ctx.leanchecker("Emerge.Props.C11")
-    except Broken as b:
-        ctx.add_broken(b.what, b.detail)
+    if not ctx.prepare(["lexer", "tables", "specmaps"], "Emerge.Props.C11", quick):
+        return ctx.finish(LEVEL, {"evaluations": 0, "distinct_nontrivial": 0, "samples": [], "explanation": "aborted"}, [])
     rng = ctx.rng
     cases = []
     special = ["grammar x", "grammar x;", "grammar x\n", "grammar x; a =;", "grammar x; a = ;\nb = |;", "grammar x; start = (((((( a )))))) [[[ b ]]] {{{ c }}} {{ {{ d }} }};",
